@@ -9,6 +9,7 @@ import (
 	"path/filepath"
 	"sort"
 	"strings"
+	"sync"
 
 	"golang.org/x/tools/go/packages"
 	"golang.org/x/tools/go/ssa"
@@ -32,7 +33,8 @@ type Loaded struct {
 	rtypeMethods   methodSet
 
 	verifrt     *ssa.Package
-	atomicCache map[*ssa.Function]bool
+	initSet     map[*ssa.Package]bool
+	atomicCache sync.Map
 	LoadWall    float64
 }
 
@@ -105,12 +107,13 @@ func Load(repoDir string, patterns []string, overlay map[string][]byte, initPkgs
 		addDeps(ip.Types)
 	}
 	ld := &Loaded{Prog: prog, Pkgs: map[string]*ssa.Package{}, Overlay: overlay, RepoDir: repoDir,
-		Sizes: types.SizesFor("gc", "amd64"), atomicCache: map[*ssa.Function]bool{}}
+		Sizes: types.SizesFor("gc", "amd64")}
 	for i, p := range pkgs {
 		if p != nil {
 			ld.Pkgs[initial[i].PkgPath] = p
 		}
 	}
+	ld.initSet = map[*ssa.Package]bool{}
 	initReflectOnce(ld)
 	prog.Build()
 	for _, ip := range initPkgs {
@@ -119,6 +122,7 @@ func Load(repoDir string, patterns []string, overlay map[string][]byte, initPkgs
 			return nil, fmt.Errorf("init package %s not among the loaded patterns", ip)
 		}
 		ld.InitPkgs = append(ld.InitPkgs, p)
+		ld.initSet[p] = true
 	}
 	ld.verifrt = ld.Pkgs[VerifrtPath]
 	return ld, nil
@@ -155,8 +159,8 @@ func (ld *Loaded) Harnesses(prefix string) []Harness {
 // "Atomic" (or that are methods of types whose name starts with "Atomic") run
 // without scheduling points.
 func (ld *Loaded) isAtomicFn(fn *ssa.Function) bool {
-	if v, ok := ld.atomicCache[fn]; ok {
-		return v
+	if v, ok := ld.atomicCache.Load(fn); ok {
+		return v.(bool)
 	}
 	r := false
 	if fn.Pkg != nil && fn.Pkg == ld.verifrt {
@@ -171,6 +175,6 @@ func (ld *Loaded) isAtomicFn(fn *ssa.Function) bool {
 			}
 		}
 	}
-	ld.atomicCache[fn] = r
+	ld.atomicCache.Store(fn, r)
 	return r
 }
